@@ -107,6 +107,8 @@ pub enum Mode {
 }
 
 pub struct ExecCfg {
+    /// end the execution with a NOISE error as soon as the kernel answers EAGAIN to an openat2 on its own
+    pub abort_on_noise: bool,
     pub specs: Vec<OneShot>,
     pub mode: Mode,
     pub root_out: String,
@@ -299,6 +301,13 @@ pub fn execute(cfg: &ExecCfg, ch: &mut Chooser) -> MResult<ExecOut> {
                     Ok(Stop::Exit) => {
                         if let Some(e) = inject { ts[w].set_rval(-(e as i64))?; ev.rval = -(e as i64); } else { ev.rval = ts[w].exit_rval()?; }
                         if ev.rval >= 0 && creates_fd(&ev.name, &ev) { ev.retid = ts[w].fdid(ev.rval as i32); }
+                        // an openat2 the kernel aborted by itself (something else on the machine renamed or mounted during the call):
+                        // this execution is not a sample of the subject under the chosen schedule - give up on it at once, before the
+                        // library's error handling shows up as unexpected choice points
+                        if cfg.abort_on_noise && inject.is_none() && ev.name == "openat2" && ev.rval == -(libc::EAGAIN as i64) {
+                            for t in ts.iter_mut() { t.kill(); }
+                            return mach("NOISE: kernel-initiated EAGAIN during this execution");
+                        }
                     }
                     Ok(Stop::Exited(_)) | Ok(Stop::Killed(_)) => { done[w] = true; ev.rval = 0; out.events.push(ev); break; }
                     Ok(Stop::Marker) => { in_window[w] = false; out.events.push(ev); break; }
